@@ -32,12 +32,19 @@ def opPlantedMinor (j : Json) : Except String Json := do
   let copies : String → String → Nat := fun ma mi => (cl.lookup (ma, mi)).getD 0
   let σ := I.plantedσ copies
   let viol := I.build.violated σ
+  -- hypotheses of `planted_minor_zero` (Props/C01Minor): phase patterns attributed as the evaluated point does
+  let chosen := I.choosePhase I.phaseCells (fun s => decide (s.idx < copies s.major s.minor))
+  let choose : Nat → Option Nat := fun ri => (chosen.find? fun ar => ar.2 == ri).map (·.1)
+  let clauses := I.plantedMinorClauses copies choose
   let err := (I.errRows.map fun m => σ (.ABS m)).sum
   let consNames := viol.1.take 5
   pure (objJ [("violated_cons", listJ natJ consNames), ("n_violated_cons", natJ viol.1.length),
               ("violated_vars", natJ viol.2.length),
               ("objective", ratJ (I.build.objective σ)), ("error_sum", ratJ err),
               ("n_cons", natJ I.build.cons.length),
+              ("planted_minor", boolJ (clauses.all (·.2))),
+              ("failing", listJ strJ ((clauses.filter (!·.2)).map (·.1))),
+              ("n_phase_cells", natJ I.phaseCells.length),
               ("bad_rows", listJ (fun (m : Mut) => listJ id [intJ m.pos, strJ m.op, ratJ (σ (.E m))]) (I.errRows.filter fun m => σ (.E m) != 0))])
 
 end Aldy.Driver
